@@ -12,5 +12,6 @@ CONSTANTS
   SOLVER = {}
   SCALES = {"unit", "bigcore", "small"}
   SYSCLS = {}
+  OPTS = {"verbose", "nswp40"}
 INVARIANT WellTyped
 CHECK_DEADLOCK FALSE
